@@ -414,6 +414,10 @@ fn hits_open_deviation(sp: &SProblem, sol: &Value) -> Option<&'static str> {
             if starts_interval && acts.iter().any(|a| is_job_type(a["type"].as_str().unwrap())) {
                 return Some("job_at_interval_start");
             }
+            // D9: only the FIRST activity of a stop makes it a reload stop
+            if acts.iter().skip(1).any(|a| a["type"] == "reload") {
+                return Some("reload_not_first_in_stop");
+            }
             // D1a: a break strictly inside a stop is counted twice by `check_break_assignment`
             for (k, a) in acts.iter().enumerate() {
                 if a["type"] == "break" && k > 0 && k + 1 < acts.len() {
@@ -429,7 +433,7 @@ fn hits_open_deviation(sp: &SProblem, sol: &Value) -> Option<&'static str> {
                 let dep = stops.first().unwrap()["departure"].as_i64().unwrap();
                 let arr = stops.last().unwrap()["arrival"].as_i64().unwrap();
                 let actual = stops.iter().flat_map(|s| acts_of(s).iter()).filter(|a| a["type"] == "break").count()
-                    + sol["violations"].as_array().map(|v| v.iter().filter(|x| x["vehicleId"] == t["vehicleId"] && x["shiftIndex"] == t["shiftIndex"]).count()).unwrap_or(0);
+                    + sol["violations"].as_array().map(|v| v.iter().filter(|x| x["vehicle_id"] == t["vehicleId"] && x["shift_index"] == t["shiftIndex"]).count()).unwrap_or(0);
                 let mut required = 0;
                 for b in shift.breaks.iter() {
                     let (s0, e0) = if b.offset { (dep + b.time.0, dep + b.time.1) } else { b.time };
@@ -439,8 +443,9 @@ fn hits_open_deviation(sp: &SProblem, sol: &Value) -> Option<&'static str> {
                     };
                 }
                 // D8: a break that the policy would allow to skip but that was served anyway is "amount of breaks does not match"
-                if actual > required {
-                    return Some("break_served_though_skippable");
+                // D10: for an open tour the checker takes the arrival of the last STOP, the solver that of the last activity
+                if actual != required {
+                    return Some("break_count_differs_from_policy");
                 }
                 for b in shift.breaks.iter() {
                     let (s0, e0) = if b.offset { (dep + b.time.0, dep + b.time.1) } else { b.time };
@@ -571,8 +576,8 @@ fn mutants(rng: &mut Rng, sp: &SProblem, sol: &Value) -> Vec<Value> {
         let vt = vehicle_type_index(sp, vid).unwrap();
 
         // --- capacity
-        for (si, _) in stops.iter().enumerate() {
-            for d in 0..dims {
+        for (si, s) in stops.iter().enumerate() {
+            for d in 0..dims.min(s["load"].as_array().map(|l| l.len()).unwrap_or(0)) {
                 let mut t2 = t.clone();
                 let cur = t2["stops"][si]["load"][d].as_i64().unwrap_or(0);
                 let delta = if cur > 0 && (si + d) % 3 == 0 { -1 } else { 1 };
@@ -892,6 +897,9 @@ fn solve(sp: &SProblem, generations: usize) -> Option<Value> {
 fn gen_cases(rng: &mut Rng, tier: Tier) -> Vec<Value> {
     let n = if tier == Tier::Thorough { 600 } else { 44 };
     let probe = std::env::var("C12_PROBE").is_ok();
+    if std::env::var("C12_DEBUG").is_ok() {
+        let _ = std::panic::take_hook();
+    }
     let mut cases = vec![];
     let mut skipped = BTreeMap::<String, usize>::new();
     let mut i = 0;
@@ -900,7 +908,10 @@ fn gen_cases(rng: &mut Rng, tier: Tier) -> Vec<Value> {
         attempts += 1;
         let cfg = feature_cfg(rng, i);
         let mut sp = gen_problem(rng, &cfg);
-        restrict_problem(rng, &mut sp);
+        let raw = std::env::var("C12_PROBE").map(|v| v == "raw").unwrap_or(false);
+        if !raw {
+            restrict_problem(rng, &mut sp);
+        }
         let generations = *rng.pick(&[3usize, 10, 30]);
         let Some(sol) = solve(&sp, generations) else {
             *skipped.entry("unsolved".into()).or_default() += 1;
@@ -912,6 +923,30 @@ fn gen_cases(rng: &mut Rng, tier: Tier) -> Vec<Value> {
                 cases.push(json!({"k": "outside_fragment", "sp": sp, "sol": sol, "muts": [], "in_hyp": false}));
             }
             continue;
+        }
+        if raw || std::env::var("C12_PROBE").map(|v| v == "s29").unwrap_or(false) {
+            // development aid: witnesses for the deviations that need unrestricted problems / reserved ids in relations
+            for t in sol["tours"].as_array().unwrap() {
+                let ids = tour_ids(t);
+                let vid = t["vehicleId"].as_str().unwrap().to_string();
+                let n_reload = ids.iter().filter(|i| i.as_str() == "reload").count();
+                let single_ok = |i: &String| is_reserved(i) || task_count(&sp, i) == Some(1);
+                if n_reload >= 2 && ids.iter().all(single_ok) && t["shiftIndex"] == 0 {
+                    let upto = ids.iter().position(|i| i == "reload").unwrap() + 2;
+                    let mut a = sp.clone();
+                    a.relations = vec![SRelation { kind: "sequence".into(), jobs: ids[1..upto.min(ids.len() - 1)].to_vec(), vehicle_id: vid.clone(), shift_index: None }];
+                    cases.push(json!({"k": "S29a", "sp": a, "sol": sol, "muts": [], "in_hyp": false}));
+                    let mut b = sp.clone();
+                    let inner: Vec<String> = ids.iter().filter(|i| i.as_str() != "departure" && i.as_str() != "arrival").cloned().collect();
+                    b.relations = vec![SRelation { kind: "sequence".into(), jobs: inner, vehicle_id: vid.clone(), shift_index: None }];
+                    cases.push(json!({"k": "S29b", "sp": b, "sol": sol, "muts": [], "in_hyp": false}));
+                }
+                if sol["tours"].as_array().unwrap().len() >= 2 && ids.len() >= 3 && single_ok(&ids[1]) && t["shiftIndex"] == 0 {
+                    let mut c = sp.clone();
+                    c.relations = vec![SRelation { kind: "any".into(), jobs: vec!["departure".into(), ids[1].clone()], vehicle_id: vid.clone(), shift_index: None }];
+                    cases.push(json!({"k": "S29c", "sp": c, "sol": sol, "muts": [], "in_hyp": false}));
+                }
+            }
         }
         if let Some(why) = hits_open_deviation(&sp, &sol) {
             *skipped.entry(why.into()).or_default() += 1;
